@@ -50,7 +50,7 @@ PIPELINE_KINDS = {"rule_failure", "item_failure"}
 
 def make_rule(i: int, fail: str | None, nconds: int, product: str):
     det = {"sel": {"f": f"v{i}", "g|contains": "x"}, "other": {"h": i}, "ph": {"p|expand": "%known%"}}
-    conds = ["sel", "sel and not other", "other or ph"][:nconds]
+    conds = ["sel", "sel and not other", "other or ph", "sel and not (other or ph)", "not (not sel and other) or ph"][:nconds]
     ls = {"category": "proc", "product": product}
     if fail == "rule_failure":
         ls["category"] = "failcat"
@@ -87,6 +87,10 @@ def _convert(cfg, docs, use_pipeline: bool, collect: bool):
     from sigma.collection import SigmaCollection
     from sigma.processing.pipeline import ProcessingPipeline
 
+    # every conversion starts from empty process-wide caches (condition parses, modifier type hints): the
+    # per-rule reference conversions must not inherit what the collection conversion left there
+    from vf.props.c15 import _clear_caches
+    _clear_caches()
     pipeline = ProcessingPipeline.from_dict(copy.deepcopy(PIPELINE)) if use_pipeline else None
     from vf.target.correlation import correlation_attrs
     backend = make_backend(cfg, pipeline, collect_errors=collect,
@@ -187,7 +191,7 @@ def cases(draw):
     plan = [draw(st.sampled_from(kinds)) if draw(st.integers(0, 2)) == 0 else None for _ in range(n)]
     if not cfg["not_eq"]:
         plan = [None if p == "noteq_unsupported" and False else p for p in plan]
-    rules = [make_rule(i, plan[i], draw(st.integers(1, 3)), draw(st.sampled_from(["windows", "linux"]))) for i in range(n)]
+    rules = [make_rule(i, plan[i], draw(st.integers(1, 5)), draw(st.sampled_from(["windows", "linux"]))) for i in range(n)]
     if not use_p:
         # without a pipeline the resolvable placeholder would fail everywhere: drop it
         for r in rules:
